@@ -36,6 +36,7 @@ Definition binR (o : binop) (x y : R) : R :=
   | Pow => Rpower x y | Atan2 => Ratan2 x y | Fmod => x - y * IZR (Ztrunc (x / y))
   | FMin => Rmin x y | FMax => Rmax x y
   | Ldexp => x * Rpower 2 y
+  | CopySign => if Rlt_dec y 0 then - Rabs x else Rabs x   (* the magnitude of x with the sign of y; y = -0 is not distinguished from +0 *)
   | _ => 0
   end.
 
@@ -75,7 +76,7 @@ with evalRB (env : renv) (e : expr) {struct e} : bool :=
 (* the fragment on which evalR is the intended idealisation *)
 Definition unop_real (o : unop) := match o with BNot | Nearby => false | _ => true end.
 Definition binop_real (o : binop) :=
-  match o with Add | Sub | Mul | Div | Pow | Atan2 | Fmod | FMin | FMax => true | _ => false end.
+  match o with Add | Sub | Mul | Div | Pow | Atan2 | Fmod | FMin | FMax | CopySign => true | _ => false end.
 
 Fixpoint realok (e : expr) : bool :=
   match e with
